@@ -151,7 +151,7 @@ def truth_failures(spec, obs):
     if not obs["done"]:
         return [("not-ended", "complete message but the parser still waits for bytes")]
     if obs["errored"]:
-        return [("errored:" + re.sub(r"[^A-Za-z]+", "-", str(obs["error"]))[:40],
+        return [("errored:" + "-".join(re.findall(r"[A-Za-z]+", str(obs["error"]))[:3]),
                  "well-formed message marked errored: %r" % (obs["error"],))]
     start = spec["start"]
 
